@@ -2,14 +2,17 @@
   C15 — the typed directive lists and the syntax tree never diverge under edits.
 
   Specification-side consequences ("an operation applied later in the same session sees everything an
-  earlier one added or changed"), stated on `EditSpec.step`.  The model-side invariant `typed_eq_tree`
-  (typed lists = interpretation of the syntax tree, no cleared entries) is stated over
-  Model/Modfile/Edit.lean; what is not yet proved of it is listed in lean/PENDING.md.
+  earlier one added or changed"), stated on `EditSpec.step`, and the model-side invariant `typed_eq_tree`
+  (typed lists = directive-level reading of the syntax tree, no cleared entries) over Model/Modfile/Edit.lean:
+  proved for every go.mod operation but the two bulk requirement setters (`typed_eq_tree_partial2`); what is
+  not yet proved of it is listed in lean/PENDING.md.
 -/
 import ModVerif.Spec.EditSpec
 import ModVerif.Proofs.EditSpecLists
 import ModVerif.Model.Modfile.EditAbs
 import ModVerif.Proofs.EditModel
+import ModVerif.Proofs.EditRefineInvRun
+import ModVerif.Proofs.EditRefineNoPanic
 namespace ModVerif.Props.C15
 open ModVerif ModVerif.EditSpec ModVerif.Modfile
 
@@ -110,6 +113,89 @@ theorem typed_eq_tree_partial :
                 o.typed.retract == [⟨B "v1.0.0", B "v1.0.0", B "bad"⟩] && o.typed.tool == [B "example.com/u"] &&
                 o.typed.replace == [⟨B "example.com/a", [], B "example.com/c", B "v1.2.0"⟩] && o.typed.exclude == []) = true := by
   decide +kernel
+
+
+/-! ### The typed lists and the syntax tree describe the same directives (model level)
+
+    `Edit.view stmts` = the live lines of the tree with their FULL tokens (block verb in front) and end-of-line
+    comments; `Edit.entries f` = one entry per live typed directive: the id of its syntax line (Go: the `Syntax`
+    pointer) and what that line must look like — verb, AutoQuoted path, version, … and, for a requirement, the
+    `// indirect` marker iff the entry is indirect.  `Edit.Inv e` = the tree is well formed (pairwise different line
+    ids below the fresh-id counter, one-verb blocks) and `Match`: the entries point at pairwise different live lines,
+    each line is the rendering of its entry, and every live line belongs to an entry — i.e. the typed lists ARE the
+    directive-level reading of the tree, without going through Format ∘ Parse.
+    Helper lemmas: Proofs/EditRefineTree.lean (what updateLine / markRemoved / addLine / Cleanup / SortBlocks /
+    removeDups do to `view`), EditRefineInv*.lean. -/
+
+/-- **typed_eq_tree (partial 2).**  From a state satisfying the invariant — e.g. the empty go.mod, `Inv_empty` — after
+    ANY session of go.mod operations with valid arguments (all operations except SetRequire and
+    SetRequireSeparateIndirect) and the final Cleanup, the invariant holds again: the typed lists equal the
+    directive-level reading of the syntax tree, and (`cleanup_no_cleared_entries`) hold no cleared placeholder.
+    What is missing for the full C15 statement:
+    (1) `Inv (load f)` for every strictly parsed, well-formed `f` (a fact about the parser's token rewriting and id
+        numbering; kernel-evaluated sessions from parsed files: `typed_eq_tree_partial`);
+    (2) the two bulk requirement setters — their `setIndirect` step needs the hypothesis `NoNestedIndirectMarker`
+        (no requirement line whose comment text after `indirect;` is again an indirect marker: that is the recorded
+        finding `C16_violated_indirect_marker_survives`) and SetRequireSeparateIndirect's block surgery;
+    (3) the print/parse round trip of the tree (C02's `format_preserves_directives`) to pass from "reading of the
+        tree" to "strict parse of the formatted file" — where the three recorded rationale findings live. -/
+theorem typed_eq_tree_partial2 (e e' : Edit.EFile) (ops : List Edit.Op) (res : List Bool) (hi : Edit.Inv e)
+    (hv : ∀ op ∈ ops, Edit.ValidArgsT op) (h : Edit.runOps Edit.applyMod e ops [] 0 = .done e' res) :
+    Edit.Inv (Edit.cleanup e') :=
+  Edit.typed_eq_tree_partial2 e e' ops res hi hv h
+
+/-- **nilDeref_unreachable (partial).**  From a state satisfying the invariant, a session of go.mod operations with
+    valid arguments (all but the two bulk requirement setters) ALWAYS runs to completion: no operation panics (the
+    model's explicit `nilDeref` = Go's nil `Syntax` dereference on a cleared entry; the only failures are the three
+    documented returned errors), and the final state satisfies the invariant again.  Missing for the full statement: the
+    bulk setters after a Cleanup (they dereference every requirement, cleared ones included). -/
+theorem nilDeref_unreachable_partial (e : Edit.EFile) (ops : List Edit.Op) (hi : Edit.Inv e)
+    (hv : ∀ op ∈ ops, Edit.ValidArgsT op ∧ Edit.IsModOp op) :
+    ∃ e' res, Edit.runOps Edit.applyMod e ops [] 0 = .done e' res ∧ Edit.Inv (Edit.cleanup e') := by
+  rcases Edit.runOps_total ops e [] 0 hv hi with ⟨e', res, h⟩
+  exact ⟨e', res, h, Edit.typed_eq_tree_partial2 e e' ops res hi (fun op hop => (hv op hop).1) h⟩
+
+/-- one operation preserves the invariant (the per-operation lemma (ii) of lean/PENDING.md) -/
+theorem op_preserves_inv (e e' : Edit.EFile) (op : Edit.Op) (hv : Edit.ValidArgsT op) (hi : Edit.Inv e)
+    (h : Edit.applyMod e op = some (.ok e')) : Edit.Inv e' :=
+  Edit.applyMod_inv e e' op hv hi h
+
+/-- the empty go.mod satisfies the invariant (non-vacuity of `typed_eq_tree_partial2`, together with the session below) -/
+theorem Inv_empty : Edit.Inv (Edit.load {}) := Edit.Inv_empty
+
+/-- what the invariant says, for requirements: every live typed requirement has its own live line
+    `require <AutoQuoted path> <version>` whose end-of-line comment carries the indirect marker iff the entry is
+    indirect; and every live line of the tree is the rendering of the typed entry with its id -/
+theorem inv_reads_tree (e : Edit.EFile) (hi : Edit.Inv e) :
+    (∀ r ∈ e.f.require, r.mod.path ≠ [] →
+      ∃ v ∈ Edit.view e.f.syn.stmts, v.id = r.lineId ∧ v.toks = [B "require", autoQuote r.mod.path, r.mod.version] ∧
+        Edit.isIndirectS v.suffix = r.indirect) ∧
+    (∀ v ∈ Edit.view e.f.syn.stmts, ∃ en ∈ Edit.entries e.f, en.id = v.id ∧ en.acc v.toks v.suffix) ∧
+    ((Edit.entries e.f).map (·.id)).Nodup :=
+  ⟨fun r hr hl => hi.require_line r hr hl, fun v hv => hi.line_entry v hv, hi.mtch.nodup⟩
+
+/-- non-vacuity: a session built up from the empty file with valid arguments that runs to completion (so the
+    hypotheses of `typed_eq_tree_partial2` are jointly satisfiable, with `Inv_empty`) -/
+example :
+    let ops : List Edit.Op := [.addModule (B "example.com/m"), .addGo (B "1.21"), .addRequire (B "example.com/a") (B "v1.0.0"),
+      .addNewRequire (B "example.com/b") (B "v1.2.3") true, .addRequire (B "example.com/a") (B "v1.1.0"),
+      .addExclude (B "example.com/b") (B "v1.0.0"), .addReplace (B "example.com/a") [] (B "../a") [],
+      .addRetract (B "v1.0.0") (B "v1.0.0") (B "bad"), .addTool (B "example.com/t"), .dropRequire (B "example.com/b"),
+      .addGodebug (B "panicnil") (B "1"), .sortBlocks, .cleanup]
+    (match Edit.runOps Edit.applyMod (Edit.load {}) ops [] 0 with
+     | .done e res => res.all id && (Edit.absOf (Edit.cleanup e).f).require == [⟨B "example.com/a", B "v1.1.0", false⟩]
+     | _ => false) = true := by decide +kernel
+
+/-- the arguments of the session above are valid in the sense of `typed_eq_tree_partial2` / `nilDeref_unreachable_partial` -/
+example : ∀ op ∈ ([.addModule (B "example.com/m"), .addGo (B "1.21"), .addRequire (B "example.com/a") (B "v1.0.0"),
+      .addNewRequire (B "example.com/b") (B "v1.2.3") true, .addRequire (B "example.com/a") (B "v1.1.0"),
+      .addExclude (B "example.com/b") (B "v1.0.0"), .addReplace (B "example.com/a") [] (B "../a") [],
+      .addRetract (B "v1.0.0") (B "v1.0.0") (B "bad"), .addTool (B "example.com/t"), .dropRequire (B "example.com/b"),
+      .addGodebug (B "panicnil") (B "1"), .sortBlocks, .cleanup] : List Edit.Op), Edit.ValidArgsT op ∧ Edit.IsModOp op := by
+  intro op hop
+  simp only [List.mem_cons, List.mem_nil_iff, or_false] at hop
+  rcases hop with rfl | rfl | rfl | rfl | rfl | rfl | rfl | rfl | rfl | rfl | rfl | rfl | rfl <;>
+    simp only [Edit.ValidArgsT, Edit.IsModOp, and_true] <;> first | trivial | decide +kernel
 
 /-- non-vacuity: a session in which a later op works on what an earlier one created -/
 example : (run stdValidity {} [.addNewRequire (B "a") (B "v1.0.0") true, .addRequire (B "a") (B "v1.1.0"), .cleanup]).require
